@@ -15,7 +15,7 @@ def prog():
     return _PROG
 
 
-def explore_source(src, plant=None, target_os=(), multi_file=False, max_paths=20000, interp=None, crate="", file_path="src/lib.rs", via_parse=False):
+def explore_source(src, plant=None, target_os=(), multi_file=False, max_paths=20000, interp=None, crate="", file_path="src/lib.rs", via_parse=True):
     """run the visitor on `src` (placeholders planted by plant(I) -> mapping); yields
     (I, kind, parsed_data_json|None|Panic, pc) per path.  via_parse: enter through `parser::parse` itself (text pre-filter,
     syn::parse_file model, visitor) with the placeholders symbolic in the source text as well"""
